@@ -1,6 +1,13 @@
 """C13 — concurrent_priority_queue is a linearizable priority queue (DESIGN.md §3 C13).
 
+Elements are `<key>:<id>` (or `<n>` for key = id = n): the queue's comparator sees the key only, so distinct ids with
+equal keys are ties of the comparator; results and vector contents are compared by id.  Every case is run with
+several comparators (identity, coarse classes v//d, residues v%m, all-equal, and — through a user-supplied Compare
+template argument — the reversed order).
+
 Ties:
+  E-GEN   the four guards of handle_operations and its statement skeleton are re-translated from the source
+          (checks/c13gen.py -> Generated/C13.lean); the model is defined from the guards, Props/C13.lean checks the skeleton.
   E-PURE  white-box calls of the real handle_operations / heapify / reheap (harness/c13/pure.cpp) against the Lean
           model `CpqBatch` (drv_c13 c13), plus implementation-side monitors (conservation, per-batch
           linearizability by an independent brute-force checker, exception isolation, heap invariant).
@@ -14,6 +21,7 @@ import os
 import re
 from collections import Counter
 
+import c13gen
 import common
 from common import BuildError, REPO, cxx_build, drv, first_diff, gen_write, log, sh
 
@@ -61,22 +69,33 @@ def gen(ck):
     except (ValueError, OSError) as e:
         ck.oblige("gen:popAssignGuarded-translated", "generated", False, "translator cannot read handle_operations: %s" % e)
         g = False
-    ck.extra["generated_constants"] = {"popAssignGuarded": g}
-    gen_write("C13", "/-- is every `*(tmp->elem) = std::move(...)` of handle_operations inside a try block whose handler stores FAILED? -/\n"
-                     "def popAssignGuarded : Bool := %s\n" % ("true" if g else "false"))
+    try:
+        tr = c13gen.translate(open(HDR).read())
+        ck.oblige("gen:handle_operations guards + statement skeleton translated", "generated", True,
+                  "shortcutP1 `%s`; shortcutP2 `%s`; emptyP2 `%s`; finishGuard `%s`" % (tr["shortcutP1_src"], tr["shortcutP2_src"], tr["emptyP2_src"], tr["finish_src"]))
+    except (c13gen.GenError, OSError) as e:
+        ck.oblige("gen:handle_operations guards + statement skeleton translated", "generated", False,
+                  "translator cannot read handle_operations: %s" % e)
+        tr = dict(c13gen.FALLBACK)
+    ck.extra["generated_constants"] = {"popAssignGuarded": g} | {k: tr[k] for k in ("shortcutP1", "shortcutP2", "emptyP2", "finishGuard")}
+    ck.extra["generated_skeleton"] = {k: tr[k] for k in ("topLevel", "p1Head", "p1PopShortcut", "p1PopDefer", "p1Push", "p2Head", "p2Empty", "p2Shortcut", "p2Top")}
+    gen_write("C13", c13gen.lean_body(tr, g))
     return g
 
 
 # ---------------------------------------------------------------------------------------------
 # helpers: heaps, line syntax
 # ---------------------------------------------------------------------------------------------
-def is_heap(d, m=None):
+IDENT = lambda v: v          # the comparator's key of an id (default: std::less on the ids)
+
+
+def is_heap(d, m=None, key=IDENT):
     m = len(d) if m is None else m
-    return all(d[i] <= d[(i - 1) // 2] for i in range(1, m))
+    return all(key(d[i]) <= key(d[(i - 1) // 2]) for i in range(1, m))
 
 
-def heap_of(xs, rng=None):
-    """a valid max-heap array with the elements xs (shape varied through the insertion order)"""
+def heap_of(xs, rng=None, key=IDENT):
+    """a valid max-heap array (w.r.t. key) with the elements xs (shape varied through the insertion order)"""
     d = []
     xs = list(xs)
     if rng is not None:
@@ -84,7 +103,7 @@ def heap_of(xs, rng=None):
     for x in xs:
         d.append(x)
         i = len(d) - 1
-        while i and d[(i - 1) // 2] < d[i]:
+        while i and key(d[(i - 1) // 2]) < key(d[i]):
             d[i], d[(i - 1) // 2] = d[(i - 1) // 2], d[i]
             i = (i - 1) // 2
     return d
@@ -94,19 +113,95 @@ def case_line(heap, batches):
     return "batch " + " ".join(map(str, heap)) + " | " + " ; ".join(" ".join(b) for b in batches)
 
 
+# ---- comparators.  A case is generated over plain ids; `keyed(line, mode)` rewrites every element of the line to
+# `<key>:<id>` with the EFFECTIVE key the (max-)queue orders by; `impl_line` gives the line for the real code, which
+# for the reversed modes runs concurrent_priority_queue<Elem, KeyGreater> on mirrored keys.
+MODES = ("id", "id", "div2", "div3", "mod2", "mod3", "const", "rev", "revdiv2")
+KMAX = 10 ** 6
+
+
+def mode_key(mode):
+    m = mode[3:] if mode.startswith("rev") else mode
+    if m in ("", "id"):
+        f = lambda v: v
+    elif m.startswith("div"):
+        d = int(m[3:]); f = lambda v: v // d
+    elif m.startswith("mod"):
+        d = int(m[3:]); f = lambda v: v % d
+    elif m == "const":
+        f = lambda v: 0
+    else:
+        raise ValueError(mode)
+    if mode.startswith("rev"):
+        return lambda v: KMAX - f(v)          # effective key of the min-queue on f
+    return f
+
+
+def tok_elem(k, i):
+    return str(i) if k == i else "%d:%d" % (k, i)
+
+
+def parse_elem(t):
+    if ":" in t:
+        k, i = t.split(":")
+        return int(k), int(i)
+    return int(t), int(t)
+
+
+def map_elems(line, fn):
+    """apply fn(key, id) -> token to every element of a heapify/reheap/batch line"""
+    w = line.split()
+    out = [w[0]]
+    if w[0] in ("heapify", "reheap"):
+        out.append(w[1])
+        out += [fn(*parse_elem(t)) for t in w[2:]]
+        return " ".join(out)
+    for t in w[1:]:
+        if t in ("|", ";", "o", "x"):
+            out.append(t)
+        elif t[0] in "pmt":
+            out.append(t[0] + fn(*parse_elem(t[1:])))
+        else:
+            out.append(fn(*parse_elem(t)))
+    return " ".join(out)
+
+
+def keyed(line, mode):
+    """model form of a line over plain ids under comparator `mode` (effective keys)"""
+    ek = mode_key(mode)
+    return map_elems(line, lambda k, i: tok_elem(ek(i), i))
+
+
+def impl_line(mline, mode):
+    """the line for the real code: same, or (reversed modes) r<kind> with the keys mirrored back"""
+    if not mode.startswith("rev"):
+        return mline
+    return "r" + map_elems(mline, lambda k, i: tok_elem(KMAX - k, i))
+
+
 def parse_case(line):
+    """model-form batch line -> (heap ids, batches of op tokens over ids, key function on ids)"""
     w = line.split()
     bar = w.index("|")
-    heap = [int(x) for x in w[1:bar]]
+    km = {}
+    heap = []
+    for x in w[1:bar]:
+        k, i = parse_elem(x)
+        km[i] = k
+        heap.append(i)
     batches, cur = [], []
     for t in w[bar + 1:]:
         if t == ";":
             batches.append(cur)
             cur = []
-        else:
+        elif t in ("o", "x"):
             cur.append(t)
+        else:
+            k, i = parse_elem(t[1:])
+            km[i] = k
+            cur.append(t[0] + str(i))
     batches.append(cur)
-    return heap, batches
+    return heap, batches, (lambda v: km.get(v, v))
 
 
 def parse_out(out):
@@ -129,52 +224,72 @@ def parse_out(out):
 # ---------------------------------------------------------------------------------------------
 # implementation-side property monitor: independent brute-force linearizability of one batch
 # ---------------------------------------------------------------------------------------------
-def batch_linearizable(init, ops):
+def batch_linearizable(init, ops, key=IDENT, max_states=300000):
     """ops: list of ('push', x, ok) / ('pop', v or None).  All ops are pairwise concurrent.  Is there an order
-    under which a sequential max-priority queue started with multiset `init` gives these results?"""
-    n = len(ops)
+    under which a sequential max-priority queue (priority = key, ties in any order) started with multiset `init`
+    gives these results?  Equal operations are interchangeable, so the search state is the vector of how many of
+    each distinct operation are still to be placed (the contents follow from it).  Returns True / False, or None
+    when the state bound is hit (inconclusive: never reported)."""
+    kinds = sorted(set(ops), key=repr)
+    total = Counter(ops)
+    start = tuple(total[k] for k in kinds)
+    base = Counter(init)
     dead = set()
+    budget = [max_states]
 
-    def rec(mask, cont):
-        if mask == (1 << n) - 1:
-            return True
-        if mask in dead:
-            return False
-        tried = set()
-        for i in range(n):
-            if mask >> i & 1 or ops[i] in tried:
+    def contents(rem):
+        c = base.copy()
+        for k, n0, n in zip(kinds, start, rem):
+            done = n0 - n
+            if not done:
                 continue
-            tried.add(ops[i])
-            o = ops[i]
-            if o[0] == "push":
-                if not o[2]:
-                    if rec(mask | 1 << i, cont):
-                        return True
-                else:
-                    c2 = cont.copy()
-                    c2[o[1]] += 1
-                    if rec(mask | 1 << i, c2):
-                        return True
-            else:
-                if o[1] is None:
-                    if not +cont and rec(mask | 1 << i, cont):
-                        return True
-                else:
-                    live = [k for k, v in cont.items() if v > 0]
-                    if live and o[1] == max(live):
-                        c2 = cont.copy()
-                        c2[o[1]] -= 1
-                        if rec(mask | 1 << i, c2):
-                            return True
-        dead.add(mask)
+            if k[0] == "push":
+                if k[2]:
+                    c[k[1]] += done
+            elif k[1] is not None:
+                c[k[1]] -= done
+        return c
+
+    def rec(rem):
+        if not any(rem):
+            return True
+        if rem in dead:
+            return False
+        budget[0] -= 1
+        if budget[0] < 0:
+            raise OverflowError
+        cont = contents(rem)
+        live = [x for x, n in cont.items() if n > 0]
+        top = max((key(x) for x in live), default=None)
+        for idx, k in enumerate(kinds):
+            if not rem[idx]:
+                continue
+            if k[0] == "pop":
+                if k[1] is None:
+                    if live:
+                        continue
+                elif cont[k[1]] <= 0 or key(k[1]) != top:
+                    continue
+            nxt = rem[:idx] + (rem[idx] - 1,) + rem[idx + 1:]
+            if rec(nxt):
+                return True
+        dead.add(rem)
         return False
 
-    return rec(0, Counter(init))
+    import sys
+    old = sys.getrecursionlimit()
+    sys.setrecursionlimit(max(old, 10000))
+    try:
+        return rec(start)
+    except OverflowError:
+        return None
+    finally:
+        sys.setrecursionlimit(old)
 
 
 def monitor_case(line, out, heap_valid=True):
     """Property monitors on what the implementation did on one `batch` line.  Returns None or a description."""
-    heap, batches = parse_case(line)
+    heap, batches, key = parse_case(line)
     segs = parse_out(out)
     if segs is None or len(segs) != len(batches):
         return "unparsable/short output: %r" % out
@@ -215,8 +330,11 @@ def monitor_case(line, out, heap_valid=True):
                     pushed.append(x)
         if Counter(data) + Counter(popped) != Counter(cont) + Counter(pushed):
             return "batch %d: elements lost/duplicated: before %s + pushed %s != after %s + popped %s" % (b, sorted(cont), sorted(pushed), sorted(data), sorted(popped))
-        if heap_valid and not batch_linearizable(cont, evs):
-            return "batch %d: no order of the batch explains the results %s on contents %s (pop not maximal / wrong failure)" % (b, " ".join(res), sorted(cont))
+        if heap_valid and batch_linearizable(cont, evs, key) is False:
+            return "batch %d: no order of the batch explains the results %s on contents %s (pop not maximal / wrong failure)" % (
+                b, " ".join(res), sorted(tok_elem(key(c), c) for c in cont))
+        if heap_valid and (mark != len(data) or not is_heap(data, None, key)):
+            return "batch %d: the vector is not a heap with mark = size after the batch: mark %d data %s" % (b, mark, [tok_elem(key(c), c) for c in data])
         cont = data
     return None
 
@@ -253,8 +371,8 @@ def drain(n):
     return ["o"] * (n + 1)
 
 
-def exhaustive_cases(vals, max_heap, max_ops, with_throw_upto):
-    heaps = [list(h) for k in range(max_heap + 1) for h in itertools.product(vals, repeat=k) if is_heap(h)]
+def exhaustive_cases(vals, max_heap, max_ops, with_throw_upto, key=IDENT):
+    heaps = [list(h) for k in range(max_heap + 1) for h in itertools.product(vals, repeat=k) if is_heap(h, None, key)]
     alpha = ["p%d" % v for v in vals] + ["o"]
     alpha_t = alpha + ["t%d" % vals[-1]]
     lines = []
@@ -294,7 +412,7 @@ def random_batch(rng, n, style, vmax):
     return ops
 
 
-def random_case(rng):
+def random_case(rng, key=IDENT):
     vmax = rng.choice([1, 2, 3, 5, 9, 50, 1000])
     hs = rng.choice([0, 0, 1, 2, 3, 4, 5, 6, 7, 8, 10, 13, 17, 31])
     hstyle = rng.random()
@@ -304,7 +422,7 @@ def random_case(rng):
         xs = list(range(hs))                            # strictly monotone
     else:
         xs = [rng.randrange(vmax + 1) for _ in range(hs)]
-    heap = heap_of(xs, rng)
+    heap = heap_of(xs, rng, key)
     nb = rng.choice([1, 1, 2, 3])
     batches, size = [], len(heap)
     for _ in range(nb):
@@ -316,10 +434,10 @@ def random_case(rng):
     return case_line(heap, batches)
 
 
-def throw_family(rng):
+def throw_family(rng, key=IDENT):
     """a base batch without throwing pushes + the same batch with a throwing push inserted at every position"""
     vmax = rng.choice([2, 5, 20])
-    heap = heap_of([rng.randrange(vmax + 1) for _ in range(rng.randrange(0, 9))], rng)
+    heap = heap_of([rng.randrange(vmax + 1) for _ in range(rng.randrange(0, 9))], rng, key)
     b = [o for o in random_batch(rng, rng.randrange(0, 8), rng.choice(["mixed", "pop-heavy", "push-heavy"]), vmax) if o[0] != "t"]
     fam = [case_line(heap, [b])]
     for k in range(len(b) + 1):
@@ -327,14 +445,58 @@ def throw_family(rng):
     return fam
 
 
-def sift_lines(rng, n):
+def alloc_case(rng, key=IDENT):
+    """(k, plain batch line for the real code, plain batch line for the model): a batch of pushes handled while the k-th allocation of the
+    vector throws std::bad_alloc inside handle_operations.  The harness shrinks the vector to capacity == size first, so
+    libstdc++'s growth policy (new capacity = size + max(size, 1), allocated BEFORE the new element is constructed) tells
+    which push_back reallocates; that push must get FAILED exactly like a push whose copy throws (`t` in the model's line),
+    everything else must be as if it had not been there.  Returns None when the batch never allocates."""
+    vmax = rng.choice([2, 5, 20])
+    heap = heap_of([rng.randrange(vmax + 1) for _ in range(rng.choice([0, 0, 1, 2, 3, 4, 5, 7, 8, 9]))], rng, key)
+    b0 = []
+    for _ in range(rng.randrange(1, 9)):
+        r = rng.random()
+        b0.append(("t%d" if r < 0.15 else "m%d" if r < 0.5 else "p%d") % rng.randrange(vmax + 1))
+
+    def sim(k):
+        size = cap = len(heap)
+        nalloc, failed = 0, None
+        for j, o in enumerate(b0):
+            if size == cap:
+                a = nalloc
+                nalloc += 1
+                if a == k:
+                    failed = j          # bad_alloc: strong guarantee, nothing changes
+                    continue
+                if o[0] == "t":
+                    continue            # new block allocated, copy throws, block freed: capacity unchanged
+                cap = size + max(size, 1)
+                size += 1
+            elif o[0] != "t":
+                size += 1
+        return nalloc, failed
+
+    n, _ = sim(-1)
+    if n == 0:
+        return None
+    k = rng.randrange(n)
+    _, j = sim(k)
+    if j is None:
+        return None
+    b0m = list(b0)
+    b0m[j] = "t" + b0[j][1:]
+    rest = [random_batch(rng, rng.randrange(0, 6), "mixed", vmax), drain(len(heap) + len(b0) + 6)]
+    return k, case_line(heap, [b0] + rest), case_line(heap, [b0m] + rest)
+
+
+def sift_lines(rng, n, key=IDENT):
     lines = []
     for _ in range(n):
         vmax = rng.choice([1, 3, 9, 100])
         sz = rng.randrange(0, 20)
         if rng.random() < 0.7:
             m = rng.randrange(0, sz + 1)
-            d = heap_of([rng.randrange(vmax + 1) for _ in range(m)], rng) + [rng.randrange(vmax + 1) for _ in range(sz - m)]
+            d = heap_of([rng.randrange(vmax + 1) for _ in range(m)], rng, key) + [rng.randrange(vmax + 1) for _ in range(sz - m)]
         else:
             d = [rng.randrange(vmax + 1) for _ in range(sz)]
             m = rng.randrange(0, sz + 1)
@@ -345,9 +507,16 @@ def sift_lines(rng, n):
 
 
 def monitor_sift(line, out):
+    """line in model form (effective keys)"""
     w = line.split()
-    m, d = int(w[1]), [int(x) for x in w[2:]]
-    if not is_heap(d, m):
+    m = int(w[1])
+    km, d = {}, []
+    for t in w[2:]:
+        k, i = parse_elem(t)
+        km[i] = k
+        d.append(i)
+    key = lambda v: km.get(v, v)
+    if not is_heap(d, m, key):
         return None
     try:
         parts = out.split("|")
@@ -355,10 +524,10 @@ def monitor_sift(line, out):
     except (ValueError, IndexError):
         return "unparsable: %r" % out
     if w[0] == "heapify":
-        if m2 != len(d) or not is_heap(d2) or Counter(d2) != Counter(d):
+        if m2 != len(d) or not is_heap(d2, None, key) or Counter(d2) != Counter(d):
             return "heapify of heap-prefix %d of %s gave mark %d data %s" % (m, d, m2, d2)
     else:
-        if m2 != min(m, len(d) - 1) or not is_heap(d2, m2) or Counter(d2) + Counter([d[0]]) != Counter(d) or d2[m2:] != d[m:len(d) - 1][:len(d2) - m2] and m >= 1:
+        if m2 != min(m, len(d) - 1) or not is_heap(d2, m2, key) or Counter(d2) + Counter([d[0]]) != Counter(d) or d2[m2:] != d[m:len(d) - 1][:len(d2) - m2] and m >= 1:
             return "reheap of mark %d %s gave mark %d data %s" % (m, d, m2, d2)
     return None
 
@@ -366,8 +535,26 @@ def monitor_sift(line, out):
 # ---------------------------------------------------------------------------------------------
 # shrinking a failing `batch` line (the predicate runs the real code + monitors)
 # ---------------------------------------------------------------------------------------------
-def shrink_case(exe, line, failing):
-    heap, batches = parse_case(line)
+def both(plain, mode):
+    """(line for the real code, line for the model) of a case generated over plain ids under comparator `mode`"""
+    m = keyed(plain, mode)
+    return impl_line(m, mode), m
+
+
+def shrink_case(exe, plain, mode, failing):
+    """plain: batch line over ids; failing(model line, impl output) -> bool"""
+    key = mode_key(mode)
+    w = plain.split()
+    bar = w.index("|")
+    heap = [int(x) for x in w[1:bar]]
+    batches, cur = [], []
+    for t in w[bar + 1:]:
+        if t == ";":
+            batches.append(cur)
+            cur = []
+        else:
+            cur.append(t)
+    batches.append(cur)
     best = (heap, batches)
 
     def cands(heap, batches):
@@ -379,10 +566,10 @@ def shrink_case(exe, line, failing):
             if not b and len(batches) > 1:
                 yield heap, batches[:bi] + batches[bi + 1:]
         for k in range(len(heap)):
-            yield heap_of(heap[:k] + heap[k + 1:]), batches
+            yield heap_of(heap[:k] + heap[k + 1:], None, key), batches
         vals = sorted({x for x in heap} | {int(o[1:]) for b in batches for o in b if o not in ("o", "x")})
         rank = {v: i for i, v in enumerate(vals)}
-        if vals and vals != list(range(len(vals))):
+        if mode == "id" and vals and vals != list(range(len(vals))):
             yield heap_of([rank[x] for x in heap]) if not is_heap([rank[x] for x in heap]) else [rank[x] for x in heap], \
                 [[o if o in ("o", "x") else o[0] + str(rank[int(o[1:])]) for o in b] for b in batches]
 
@@ -390,11 +577,11 @@ def shrink_case(exe, line, failing):
         cs = list(cands(*best))
         if not cs:
             break
-        lines = [case_line(h, b) for h, b in cs]
-        outs = run_impl(exe, lines, timeout=300)
+        pairs = [both(case_line(h, b), mode) for h, b in cs]
+        outs = run_impl(exe, [a for a, _ in pairs], timeout=300)
         hit = None
-        for c, l, o in zip(cs, lines, outs):
-            if failing(l, o):
+        for c, (il, ml), o in zip(cs, pairs, outs):
+            if failing(ml, o):
                 hit = c
                 break
         if hit is None:
@@ -414,132 +601,210 @@ def run_pure(ck):
     exe = pure_exe()
     quick = ck.tier == "quick"
     rng = ck.rng
+    # every case: (plain line over ids, comparator mode); the real code gets impl_line, the model the keyed line
     groups = {}
-    groups["exhaustive-small"] = exhaustive_cases([0, 1, 2], 3, 4, 3) if quick else \
-        exhaustive_cases([0, 1, 2], 3, 4, 3) + exhaustive_cases([0, 1, 2, 3], 4, 3, 2)
-    groups["random"] = [random_case(rng) for _ in range(6000 if quick else 300000)]
-    fams = [throw_family(rng) for _ in range(250 if quick else 20000)]
-    groups["throw-at-every-position"] = [l for f in fams for l in f]
-    groups["arbitrary-data"] = []
+
+    def gen_group(name, n, fn):
+        cs = []
+        for _ in range(n):
+            mode = rng.choice(MODES)
+            cs.append((fn(mode_key(mode)), mode))
+        groups[name] = cs
+
+    ex = [(l, "id") for l in exhaustive_cases([0, 1, 2], 3, 4, 3)]
+    ex += [(l, "div2") for l in exhaustive_cases([0, 1, 2], 3, 3, 3, mode_key("div2"))]       # ids 0,1 tie below 2
+    ex += [(l, "const") for l in exhaustive_cases([0, 1, 2], 3, 3, 2, mode_key("const"))]     # everything ties
+    ex += [(l, "rev") for l in exhaustive_cases([0, 1, 2], 2, 3, 2, mode_key("rev"))]         # user-supplied Compare
+    if not quick:
+        ex += [(l, "id") for l in exhaustive_cases([0, 1, 2, 3], 4, 3, 2)]
+        ex += [(l, "div2") for l in exhaustive_cases([0, 1, 2, 3], 4, 3, 2, mode_key("div2"))]
+        ex += [(l, "mod2") for l in exhaustive_cases([0, 1, 2, 3], 3, 3, 2, mode_key("mod2"))]
+    groups["exhaustive-small"] = ex
+    gen_group("random", 6000 if quick else 300000, lambda key: random_case(rng, key))
+    fams = []
+    for _ in range(250 if quick else 20000):
+        mode = rng.choice(MODES)
+        fams.append([(l, mode) for l in throw_family(rng, mode_key(mode))])
+    groups["throw-at-every-position"] = [c for f in fams for c in f]
+    arb = []
     for _ in range(300 if quick else 10000):       # not heaps: correspondence only
         d = [rng.randrange(6) for _ in range(rng.randrange(0, 9))]
-        groups["arbitrary-data"].append(case_line(d, [random_batch(rng, rng.randrange(0, 7), "mixed", 5)]))
-    sift = sift_lines(rng, 1500 if quick else 60000)
-    lines = [l for g in groups.values() for l in g] + sift
-    impl = run_impl(exe, lines)
+        arb.append((case_line(d, [random_batch(rng, rng.randrange(0, 7), "mixed", 5)]), rng.choice(MODES)))
+    groups["arbitrary-data"] = arb
+    sift = []
+    for _ in range(15 if quick else 60):
+        mode = rng.choice(MODES)
+        sift += [(l, mode) for l in sift_lines(rng, 100 if quick else 1000, mode_key(mode))]
+    cases = [c for g in groups.values() for c in g] + sift
+    pairs = [both(pl, mode) for pl, mode in cases]
+    ilines = [a for a, _ in pairs]
+    lines = [b for _, b in pairs]                   # model form (effective keys): what the monitors read
+    impl = run_impl(exe, ilines)
     model = [m.rstrip() for m in drv("c13", "\n".join(lines) + "\n", timeout=1800)]
     impl = [o.rstrip() for o in impl]
     ck.extra["pure_input_distribution"] = {k: len(v) for k, v in groups.items()} | {"heapify/reheap": len(sift)}
+    ck.extra["pure_comparators"] = dict(Counter(mode for _, mode in cases))
     ck.count(len(lines))
     nb = len(lines) - len(sift)
     # correspondence
     d = first_diff(impl, model)
-    ck.oblige("corr:handle_operations/heapify/reheap == CpqBatch model (statuses, popped values, final data, mark)", "correspondence",
-              d is None, "" if d is None else describe(lines[d], impl[d] if d < len(impl) else None, model[d] if d < len(model) else None))
+    ck.oblige("corr:handle_operations/heapify/reheap == CpqBatch model (statuses, popped ids, final vector contents by id, mark; comparators with ties)", "correspondence",
+              d is None, "" if d is None else describe(ilines[d], impl[d] if d < len(impl) else None, model[d] if d < len(model) else None))
     # monitors
     bad = []
     arb0 = sum(len(groups[k]) for k in ("exhaustive-small", "random", "throw-at-every-position"))
     for i, (l, o) in enumerate(zip(lines[:nb], impl[:nb])):
         if o.startswith("CRASH"):
-            bad.append((l, o))
+            bad.append((i, o))
             continue
         why = monitor_case(l, o, heap_valid=(i < arb0))
         if why:
-            bad.append((l, why))
+            bad.append((i, why))
         segs = parse_out(o)
         if segs:
-            ck.distinct.add((len(parse_case(l)[0]) > 0, tuple(sorted(set(r[:1] + ("p" if t != "o" else "o") for s, b in zip(segs, parse_case(l)[1]) for r, t in zip(s[0], b)))), segs[0][1] == 0))
-    ck.oblige("monitor:per-batch linearizability + conservation + statuses (independent checker on the real handle_operations)", "correspondence",
-              not bad, bad[:2])
+            pc = parse_case(l)
+            ck.distinct.add((len(pc[0]) > 0, tuple(sorted(set(r[:1] + ("p" if t != "o" else "o") for sg, b in zip(segs, pc[1]) for r, t in zip(sg[0], b)))),
+                             segs[0][1] == 0, cases[i][1]))
+    ck.oblige("monitor:per-batch linearizability + conservation + statuses + heap invariant (independent checker on the real handle_operations)", "correspondence",
+              not bad, [(ilines[i], w) for i, w in bad[:2]])
     # exception isolation on the implementation: family member k == base with the throwing push removed
     iso_bad = []
     off = len(groups["exhaustive-small"]) + len(groups["random"])
     for f in fams:
         outs = impl[off:off + len(f)]
         base = parse_out(outs[0])
-        for k, (l, o) in enumerate(zip(f[1:], outs[1:])):
-            s = parse_out(o)
-            if base is None or s is None:
-                iso_bad.append((l, o))
+        for k in range(len(f) - 1):
+            o = outs[k + 1]
+            sg = parse_out(o)
+            if base is None or sg is None:
+                iso_bad.append((off + k + 1, o))
                 continue
-            res = s[0][0]
-            if res[k:k + 1] != ["F"] or res[:k] + res[k + 1:] != base[0][0] or s[0][1:3] != base[0][1:3]:
-                iso_bad.append((l, "with throwing push at %d: %s ; without: %s" % (k, o, outs[0])))
+            res = sg[0][0]
+            if res[k:k + 1] != ["F"] or res[:k] + res[k + 1:] != base[0][0] or sg[0][1:3] != base[0][1:3]:
+                iso_bad.append((off + k + 1, "with throwing push at %d: %s ; without: %s" % (k, o, outs[0])))
         off += len(f)
     ck.oblige("monitor:a throwing copy fails only its own op (every position; other results and final state unchanged)", "correspondence",
-              not iso_bad, iso_bad[:2])
+              not iso_bad, [(ilines[i], w) for i, w in iso_bad[:2]])
     sbad = []
-    for l, o in zip(sift, impl[nb:]):
+    for k, (l, o) in enumerate(zip(lines[nb:], impl[nb:])):
         why = "crashed: " + o if o.startswith("CRASH") else monitor_sift(l, o)
         if why:
-            sbad.append((l, why))
-    ck.oblige("monitor:heapify/reheap give heaps and preserve the multiset", "correspondence", not sbad, sbad[:2])
+            sbad.append((nb + k, why))
+    ck.oblige("monitor:heapify/reheap give heaps and preserve the multiset", "correspondence", not sbad, [(ilines[i], w) for i, w in sbad[:2]])
     for i in (0, len(groups["exhaustive-small"]) + 7, nb + 3):
         if i < len(lines):
-            ck.sample({"input": lines[i], "impl": impl[i], "model": model[i] if i < len(model) else None})
+            ck.sample({"input": ilines[i], "comparator": cases[i][1], "impl": impl[i], "model": model[i] if i < len(model) else None})
+
+    # --- an ALLOCATION that throws inside the handler (bad_alloc from the vector's reallocation in push_back) ---------
+    al = []
+    for _ in range(400 if quick else 8000):
+        mode = rng.choice([m for m in MODES if not m.startswith("rev")])
+        c = alloc_case(rng, mode_key(mode))
+        if c is not None:
+            k, pli, plm = c
+            al.append(("abatch %d " % k + keyed(pli, mode)[len("batch "):], keyed(plm, mode)))
+    ai = [o.rstrip() for o in run_impl(exe, [a for a, _ in al])]
+    am = [m.rstrip() for m in drv("c13", "\n".join(b for _, b in al) + "\n")] if al else []
+    ck.count(len(al))
+    ck.extra["pure_input_distribution"]["allocation-throws-in-handler"] = len(al)
+    da = first_diff(ai, am)
+    ck.oblige("corr:an allocation failure inside handle_operations (bad_alloc from the reallocating push_back) == the model's failed push "
+              "(that push FAILED, all other statuses, vector contents and mark unaffected)", "correspondence",
+              da is None, "" if da is None else describe(al[da][0], ai[da] if da < len(ai) else None, am[da] if da < len(am) else None))
+    abad = []
+    for (il, ml), o in zip(al, ai):
+        w = o if o.startswith("CRASH") else monitor_case(ml, o)
+        if w:
+            abad.append((il, w))
+    ck.oblige("monitor:an allocation failure inside the handler fails only the push that needed the memory (conservation, per-batch linearizability, heap invariant)",
+              "correspondence", not abad, abad[:2])
+    if abad:
+        il, w = min(abad, key=lambda x: len(x[0]))
+        ck.counterexample("pure:" + il.replace(" ", "_"), "handle_operations with a failing allocation on `%s`: %s" % (il, w),
+                          {"engine": "E-PURE", "harness": "harness/c13/pure.cpp", "stdin": il, "model_stdin": dict(al)[il], "violation": w})
 
     # --- pops whose element assignment throws (`x`): the model follows the code AS WRITTEN (generated flag) -----
-    xl = []
+    xc = []
     for _ in range(300 if quick else 6000):
+        mode = rng.choice(MODES)
+        key = mode_key(mode)
         vmax = rng.choice([2, 5, 20])
-        heap = heap_of([rng.randrange(vmax + 1) for _ in range(rng.randrange(0, 7))], rng)
+        heap = heap_of([rng.randrange(vmax + 1) for _ in range(rng.randrange(0, 7))], rng, key)
         b = random_batch(rng, rng.randrange(1, 7), rng.choice(["mixed", "pop-heavy"]), vmax)
         for _ in range(rng.choice([1, 1, 2])):
             b.insert(rng.randrange(len(b) + 1), "x")
-        xl.append(case_line(heap, [b, drain(len(heap) + len(b))]))
-    xi = [o.rstrip() for o in run_impl(exe, xl)]
+        xc.append((case_line(heap, [b, drain(len(heap) + len(b))]), mode))
+    xp = [both(pl, mode) for pl, mode in xc]
+    xi = [o.rstrip() for o in run_impl(exe, [a for a, _ in xp])]
+    xl = [b for _, b in xp]
     xm = [m.rstrip() for m in drv("c13", "\n".join(xl) + "\n")]
     ck.count(len(xl))
     ck.extra["pure_input_distribution"]["pop-assignment-throws"] = len(xl)
     dx = first_diff(xi, xm)
     ck.oblige("corr:handle_operations with a throwing pop assignment == model of the code as written (escaped exception, unset statuses)", "correspondence",
-              dx is None, "" if dx is None else describe(xl[dx], xi[dx] if dx < len(xi) else None, xm[dx] if dx < len(xm) else None))
-    xbad = [(l, o if o.startswith("CRASH") else monitor_case(l, o)) for l, o in zip(xl, xi)]
-    xbad = [(l, w) for l, w in xbad if w]
+              dx is None, "" if dx is None else describe(xp[dx][0], xi[dx] if dx < len(xi) else None, xm[dx] if dx < len(xm) else None))
+    xbad = [(k, o if o.startswith("CRASH") else monitor_case(l, o)) for k, (l, o) in enumerate(zip(xl, xi))]
+    xbad = [(k, w) for k, w in xbad if w]
     ck.extra["pure_pop_assignment_throw_violations"] = len(xbad)
-    if xbad:
-        l, w = min(xbad, key=lambda x: len(x[0]))
-        small = shrink_case(exe, l, lambda a, o: o.rstrip().startswith("CRASH") or monitor_case(a, o.rstrip()) is not None)
-        out = run_impl(exe, [small])[0].rstrip()
-        ck.oblige("monitor:a throwing pop assignment fails only its own op (white-box handle_operations)", "correspondence", False,
-                  "%d of %d cases; smallest: `%s` -> `%s`" % (len(xbad), len(xl), small, out))
-        if any(p == "C13" and k == ASSIGN_KEY for (p, k, t) in common.known_findings()):
-            ck.obligations[-1]["explained"] = True
-        ck.counterexample(ASSIGN_KEY, "handle_operations on `%s` -> `%s`: the exception of the pop's element assignment escapes handle_operations; "
-                          "operations without status: %s" % (small, out, [i for i, r in enumerate(parse_out(out)[0][0]) if r == "W"] if parse_out(out) else "?"),
-                          {"engine": "E-PURE", "harness": "harness/c13/pure.cpp", "stdin": small, "observed": out, "model": drv("c13", small + "\n")[0]})
-    else:
-        ck.oblige("monitor:a throwing pop assignment fails only its own op (white-box handle_operations)", "correspondence", True)
 
-    # --- failing-input search ---------------------------------------------------------------
     def failing(l, o):
         o = o.rstrip()
         return o.startswith("CRASH") or monitor_case(l, o) is not None
 
-    cands = [l for l, _ in bad] + [l for l, _ in iso_bad if monitor_case(l, impl[lines.index(l)])]
-    if d is not None and not cands:
+    if xbad:
+        k, w = min(xbad, key=lambda x: len(xl[x[0]]))
+        small = shrink_case(exe, xc[k][0], xc[k][1], failing)
+        si, sm = both(small, xc[k][1])
+        out = run_impl(exe, [si])[0].rstrip()
+        ck.oblige("monitor:a throwing pop assignment fails only its own op (white-box handle_operations)", "correspondence", False,
+                  "%d of %d cases; smallest: `%s` -> `%s`" % (len(xbad), len(xl), si, out))
+        if any(p == "C13" and kk == ASSIGN_KEY for (p, kk, t) in common.known_findings()):
+            ck.obligations[-1]["explained"] = True
+        ck.counterexample(ASSIGN_KEY, "handle_operations on `%s` -> `%s`: the exception of the pop's element assignment escapes handle_operations; "
+                          "operations without status: %s" % (si, out, [i for i, r in enumerate(parse_out(out)[0][0]) if r == "W"] if parse_out(out) else "?"),
+                          {"engine": "E-PURE", "harness": "harness/c13/pure.cpp", "stdin": si, "model_stdin": sm, "observed": out, "model": drv("c13", sm + "\n")[0]})
+    else:
+        ck.oblige("monitor:a throwing pop assignment fails only its own op (white-box handle_operations)", "correspondence", True)
+
+    # --- failing-input search ---------------------------------------------------------------
+    cands = [i for i, _ in bad] + [i for i, _ in iso_bad if monitor_case(lines[i], impl[i])]
+    found = [(cases[i][0], cases[i][1]) for i in cands]
+    if d is not None and not found:
         # the model and the code disagree but no monitor fired on the generated cases: widen the search
         log("correspondence broken; searching for an input on which the property itself fails")
-        extra = exhaustive_cases([0, 1, 2], 3, 4, 3) + exhaustive_cases([0, 1, 2, 3], 4, 3, 0) + [random_case(rng) for _ in range(20000)]
-        eo = run_impl(exe, extra)
+        extra = [(l, "id") for l in exhaustive_cases([0, 1, 2], 3, 4, 3) + exhaustive_cases([0, 1, 2, 3], 4, 3, 0)]
+        extra += [(l, "div2") for l in exhaustive_cases([0, 1, 2, 3], 3, 3, 0, mode_key("div2"))]
+        for _ in range(20000):
+            mode = rng.choice(MODES)
+            extra.append((random_case(rng, mode_key(mode)), mode))
+        ep = [both(pl, mode) for pl, mode in extra]
+        eo = run_impl(exe, [a for a, _ in ep])
         ck.count(len(extra))
-        cands = [l for l, o in zip(extra, eo) if failing(l, o)][:3]
-        if not cands and d < nb and lines[d].startswith("batch"):
+        found = [c for c, (il, ml), o in zip(extra, ep, eo) if failing(ml, o)][:3]
+        if not found and d < nb and lines[d].startswith("batch"):
             # follow the differing state with more batches
-            heap, batches = parse_case(lines[d])
-            more = [case_line(heap, batches[:1] + [random_batch(rng, rng.randrange(1, 8), "mixed", 5), drain(30)]) for _ in range(3000)]
-            mo = run_impl(exe, more)
-            cands = [l for l, o in zip(more, mo) if failing(l, o)][:3]
-    if cands:
-        small = shrink_case(exe, min(cands, key=len), failing)
-        out = run_impl(exe, [small])[0].rstrip()
-        why = out if out.startswith("CRASH") else monitor_case(small, out)
-        ck.counterexample("pure:" + small.replace(" ", "_"), "handle_operations on `%s` -> `%s`: %s" % (small, out, why),
-                          {"engine": "E-PURE", "harness": "harness/c13/pure.cpp", "stdin": small, "observed": out, "violation": why,
-                           "model": drv("c13", small + "\n")[0]})
+            pl, mode = cases[d]
+            w = pl.split()
+            bar = w.index("|")
+            heap = [int(x) for x in w[1:bar]]
+            first = " ".join(w[bar + 1:]).split(" ; ")[0].split()
+            more = [(case_line(heap, [first, random_batch(rng, rng.randrange(1, 8), "mixed", 5), drain(30)]), mode) for _ in range(3000)]
+            mp = [both(a, b) for a, b in more]
+            mo = run_impl(exe, [a for a, _ in mp])
+            found = [c for c, (il, ml), o in zip(more, mp, mo) if failing(ml, o)][:3]
+    if found:
+        pl, mode = min(found, key=lambda c: len(c[0]))
+        small = shrink_case(exe, pl, mode, failing)
+        si, sm = both(small, mode)
+        out = run_impl(exe, [si])[0].rstrip()
+        why = out if out.startswith("CRASH") else monitor_case(sm, out)
+        ck.counterexample("pure:" + si.replace(" ", "_"), "handle_operations on `%s` (comparator %s) -> `%s`: %s" % (si, mode, out, why),
+                          {"engine": "E-PURE", "harness": "harness/c13/pure.cpp", "stdin": si, "model_stdin": sm, "observed": out, "violation": why,
+                           "model": drv("c13", sm + "\n")[0]})
     elif sbad:
-        l, why = min(sbad, key=lambda x: len(x[0]))
-        ck.counterexample("sift:" + l.replace(" ", "_"), why, {"engine": "E-PURE", "harness": "harness/c13/pure.cpp", "stdin": l, "violation": why, "sift": True})
+        i, why = min(sbad, key=lambda x: len(lines[x[0]]))
+        ck.counterexample("sift:" + ilines[i].replace(" ", "_"), why, {"engine": "E-PURE", "harness": "harness/c13/pure.cpp", "stdin": ilines[i],
+                                                                        "model_stdin": lines[i], "violation": why, "sift": True})
 
 
 # ---------------------------------------------------------------------------------------------
@@ -615,8 +880,30 @@ def accesses(run):
     return acc
 
 
-def history_linearizable(init, ops):
-    """Wing-Gong search: ops = [{begin,end,op,res}] (end = -1: never returned -> not allowed here)."""
+def op_id(tok):
+    """id of the element of a push token p<k>:<i> / m<..> / t<..>"""
+    return parse_elem(tok[1:])[1]
+
+
+def scenario_key(init, ops_tokens):
+    """key function on ids from the element tokens of a scenario (init tokens + op tokens)"""
+    km = {}
+    for t in init:
+        k, i = parse_elem(str(t))
+        km[i] = k
+    for t in ops_tokens:
+        if t[0] in "pmt":
+            k, i = parse_elem(t[1:])
+            km[i] = k
+    return lambda v: km.get(v, v)
+
+
+def init_ids(init):
+    return [parse_elem(str(t))[1] for t in init]
+
+
+def history_linearizable(init, ops, key=IDENT):
+    """Wing-Gong search: ops = [{begin,end,op,res}] (end = -1: never returned -> not allowed here); init: ids."""
     n = len(ops)
     dead = set()
     ends = [o["end"] for o in ops]
@@ -639,14 +926,14 @@ def history_linearizable(init, ops):
                 else:
                     v = int(r[2:])
                     live = [k for k, c in cont.items() if c > 0]
-                    if not live or v != max(live):
+                    if cont[v] <= 0 or key(v) != max(key(x) for x in live):
                         continue
                     c2 = cont.copy()
                     c2[v] -= 1
             else:
                 if r == "S":
                     c2 = cont.copy()
-                    c2[int(o[1:])] += 1
+                    c2[op_id(o)] += 1
                 else:
                     c2 = cont
             if rec(done | 1 << i, c2):
@@ -655,6 +942,65 @@ def history_linearizable(init, ops):
         return False
 
     return rec(0, Counter(init))
+
+
+def check_linearization(init, ops, lin, key=IDENT):
+    """Independent validation of a proposed linearization `lin` = [(tid, op token, result)] of the REAL history `ops`
+    (= [{tid, seq, op, res, begin, end}], stamps = exact positions in the controlled run's event log):
+    it must be a permutation of the operations with exactly the results the real code returned, respect real time
+    (an operation that returned before another was called comes first), and be a legal execution of a sequential
+    max-priority queue (priority = key, ties in any order) started with `init` (ids).  Returns None or a description."""
+    todo = {}
+    for o in ops:
+        todo.setdefault(o["tid"], []).append(o)
+    for t in todo:
+        todo[t].sort(key=lambda o: o["seq"])
+    pos = {t: 0 for t in todo}
+    seq = []
+    for (t, op, r) in lin:
+        if t not in todo or pos[t] >= len(todo[t]):
+            return "the linearization contains an operation of thread %d that the real history does not have: %s" % (t, op)
+        o = todo[t][pos[t]]
+        pos[t] += 1
+        if o["op"] != op:
+            return "operation %d of thread %d is `%s` in the real run and `%s` in the linearization" % (o["seq"], t, o["op"], op)
+        if o["res"] != r:
+            return "operation %s of thread %d returned %s in the real run; the linearization (model, batch order) predicts %s" % (op, t, o["res"], r)
+        seq.append(o)
+    for t in todo:
+        if pos[t] != len(todo[t]):
+            return "operation %d of thread %d is missing from the linearization" % (pos[t], t)
+    # real time: nothing that was called after `a` returned may precede `a`
+    for i, a in enumerate(seq):
+        for b in seq[:i]:
+            if a["end"] >= 0 and b["begin"] > a["end"]:
+                return "real-time order violated: T%d:%s returned (stamp %d) before T%d:%s was called (stamp %d) but is linearized after it" % (
+                    a["tid"], a["op"], a["end"], b["tid"], b["op"], b["begin"])
+    cont = Counter(init)
+    for o in seq:
+        op, r = o["op"], o["res"]
+        if op == "o":
+            if r == "F":
+                if +cont:
+                    return "T%d:try_pop fails although the contents %s are not empty at its place in the linearization" % (o["tid"], sorted(cont.elements()))
+            else:
+                v = int(r[2:])
+                live = list(cont.elements())
+                if cont[v] <= 0:
+                    return "T%d:try_pop returns %d which is not in the contents %s at its place in the linearization" % (o["tid"], v, sorted(live))
+                if key(v) != max(key(x) for x in live):
+                    return "T%d:try_pop returns %d (priority %d) although the contents %s hold a higher priority" % (o["tid"], v, key(v), sorted(live))
+                cont[v] -= 1
+        elif op[0] in "pm":
+            if r != "S":
+                return "push %s failed in the linearization" % op
+            cont[op_id(op)] += 1
+        elif op[0] == "t":
+            if r != "F":
+                return "push whose copy throws is linearized with result %s" % r
+        else:
+            return "unexpected operation %s" % op
+    return None
 
 
 def shim_monitor(init, run):
@@ -667,6 +1013,8 @@ def shim_monitor(init, run):
         return "deadlock: handler_busy is still set after all threads finished - every later operation on the queue spins forever; results: " + \
             " ".join("T%d:%s->%s" % (o["tid"], o["op"], o["res"]) for o in run["ops"])
     ops = run["ops"]
+    key = scenario_key(init, [o["op"] for o in ops])
+    init = init_ids(init)
     # results: statuses and exception routing
     pushed, popped = [], []
     for o in ops:
@@ -683,7 +1031,7 @@ def shim_monitor(init, run):
         if o["op"][0] in "pm":
             if o["res"] != "S":
                 return "push %s failed (%s) although nothing threw in it: an exception leaked from another operation" % (o["op"], o["res"])
-            pushed.append(int(o["op"][1:]))
+            pushed.append(op_id(o["op"]))
         if o["op"] == "o" and o["res"].startswith("S:"):
             v = int(o["res"][2:])
             if v < 0:
@@ -691,7 +1039,7 @@ def shim_monitor(init, run):
             popped.append(v)
     if Counter(run["final"]) + Counter(popped) != Counter(init) + Counter(pushed):
         return "elements lost/duplicated: initial %s + pushed %s != remaining %s + popped %s" % (sorted(init), sorted(pushed), sorted(run["final"]), sorted(popped))
-    if len(ops) <= 14 and not history_linearizable(init, [o for o in ops if o["op"] != "x"]):
+    if len(ops) <= 14 and not history_linearizable(init, [o for o in ops if o["op"] != "x"], key):
         return "history is not linearizable w.r.t. the priority-queue spec: " + " ".join("T%d:%s->%s[%d,%d]" % (o["tid"], o["op"], o["res"], o["begin"], o["end"]) for o in ops)
     # batch structure from the atomic-level log
     nx, curop, submitted, grabbed, statused, ended = {}, {}, set(), set(), set(), set()
@@ -766,37 +1114,92 @@ def severity(why):
     return 2
 
 
-def shim_model_replay(init, ths, run):
-    """feed the schedule of atomic accesses to the Lean `Agg` model; returns None or the first difference"""
+def shim_model_replay(init, ths, run, want_lin=False):
+    """feed the schedule of atomic accesses to the Lean `Agg` model; returns None or the first difference
+    (with want_lin: a pair (difference, what the model-produced linearization says about the REAL history))"""
+    r = _shim_model_replay(init, ths, run)
+    if not want_lin:
+        return r[0]
+    if r[0] is not None:
+        return r[0], None
+    return None, shim_lin_check(init, ths, run, r[1])
+
+
+def _shim_model_replay(init, ths, run):
     acc = accesses(run)
     cls = {(o["tid"], o["seq"]): o["cls"] for o in run["ops"]}
     ml = ["init " + " ".join(map(str, init))] + ["thread " + " ".join("%s@%d" % (o, cls.get((t, k), 0)) for k, o in enumerate(ops)) for t, ops in enumerate(ths)] \
-        + ["s " + a.split()[0] for a in acc] + ["results", "final"]
+        + ["s " + a.split()[0] for a in acc] + ["results", "final", "trace", "lincheck"]
     mo = drv("c13agg", "\n".join(ml) + "\n")
     pre = 1 + len(ths)
     d = first_diff(acc, mo[pre:pre + len(acc)])
     if d is not None:
-        return "access %d: implementation `%s`, model `%s`" % (d, acc[d] if d < len(acc) else None, mo[pre + d] if pre + d < len(mo) - 2 else None)
+        return "access %d: implementation `%s`, model `%s`" % (d, acc[d] if d < len(acc) else None, mo[pre + d] if pre + d < len(mo) - 4 else None), mo
     res = " | ".join(" ".join(o["res"] for o in run["ops"] if o["tid"] == t and o["res"] != "W") for t in range(len(ths)))
-    if [x.strip() for x in res.split("|")] != [x.strip() for x in mo[-2].split("|")]:
-        return "results: implementation `%s`, model `%s`" % (res, mo[-2])
+    if [x.strip() for x in res.split("|")] != [x.strip() for x in mo[-4].split("|")]:
+        return "results: implementation `%s`, model `%s`" % (res, mo[-4]), mo
     if run["final"] is not None:
-        fin = sorted(int(x) for x in mo[-1].split("|")[1].split())
+        fin = sorted(int(x) for x in mo[-3].split("|")[1].split())
         if fin != sorted(run["final"]):
-            return "final contents: implementation %s, model %s" % (sorted(run["final"]), fin)
-    return None
+            return "final contents: implementation %s, model %s" % (sorted(run["final"]), fin), mo
+    return None, mo
+
+
+def parse_trace(text):
+    """`trace` output of drv_c13 c13agg -> [('inv', t, op) | ('lin', t, op, res) | ('resp', t, res)]"""
+    evs = []
+    for part in text.split(" ; "):
+        w = part.split()
+        if not w:
+            continue
+        if w[0] == "inv":
+            evs.append(("inv", int(w[1]), w[2]))
+        elif w[0] == "lin":
+            evs.append(("lin", int(w[1]), w[2], w[3]))
+        elif w[0] == "resp":
+            evs.append(("resp", int(w[1]), w[2]))
+    return evs
+
+
+def canon_op(tok):
+    """op token as the model prints it (p<elem> for const& and rvalue pushes alike, t<elem>, o, x)"""
+    if tok in ("o", "x"):
+        return tok
+    k, i = parse_elem(tok[1:])
+    return ("t" if tok[0] == "t" else "p") + tok_elem(k, i)
+
+
+def shim_lin_check(init, ths, run, mo):
+    """(c): the REAL history is checked against the linearization the model produces for the replayed run
+    (batch order; inside a batch `batchLin`), and the model's own verdict on its trace must be positive."""
+    verdict = mo[-1].strip()
+    if verdict != "wf=1 legal=1":
+        return "model-side: the trace of the replayed run is not a well-formed legal linearization (%s) - contradicts cpq_history_linearizable" % verdict
+    tr = parse_trace(mo[-2])
+    lin = [(e[1], e[2], e[3]) for e in tr if e[0] == "lin"]
+    ops = [dict(o, op=canon_op(o["op"])) for o in run["ops"]]
+    if any(o["res"] in ("W", "X", "E") or o["end"] < 0 for o in ops):
+        return None          # incomplete / exceptional runs are judged by the monitors
+    key = scenario_key(init, [o["op"] for o in run["ops"]])
+    return check_linearization(init_ids(init), ops, lin, key)
+
+
+SHIM_MODES = ("id", "id", "div2", "mod2", "const")
 
 
 def random_scenario(rng, small=False):
+    """initial element tokens and per-thread op tokens; elements are <key>:<id> under a random comparator (ties!)"""
     T = rng.choice([2, 2] if small else [2, 2, 3, 3, 4])
     vmax = rng.choice([1, 3, 6])
-    init = [rng.randrange(vmax + 1) for _ in range(rng.randrange(0, 3 if small else 5))]
+    key = mode_key(rng.choice(SHIM_MODES))
+    el = lambda v: tok_elem(key(v), v)
+    init = [el(rng.randrange(vmax + 1)) for _ in range(rng.randrange(0, 3 if small else 5))]
     ths = []
     for _ in range(T):
         ops = []
         for _ in range(rng.randrange(1, 3 if small else 4)):
             r = rng.random()
-            ops.append("o" if r < 0.45 else ("t%d" if r < 0.55 else "m%d" if r < 0.7 else "p%d") % rng.randrange(vmax + 1))
+            ops.append("o" if r < 0.45 else ("t" if r < 0.55 else "m" if r < 0.7 else "p") + el(rng.randrange(vmax + 1)))
         ths.append(ops)
     return init, ths
 
@@ -812,23 +1215,27 @@ def run_shim(ck):
     exe = shim_exe()
     quick = ck.tier == "quick"
     rng = ck.rng
-    bad_mon, bad_corr = [], []
+    bad_mon, bad_corr, bad_lin = [], [], []
     nruns = 0
+    nlin = 0
     dist = Counter()
 
     def examine(init, ths, run, check_model=True):
-        nonlocal nruns
+        nonlocal nruns, nlin
         nruns += 1
         why = shim_monitor(init, run)
         if why:
             bad_mon.append((init, ths, "replay " + " ".join(map(str, run["sched"])), why))
             return
         if check_model:
-            d = shim_model_replay(init, ths, run)
+            d, lw = shim_model_replay(init, ths, run, want_lin=True)
             if d:
                 bad_corr.append((init, ths, "replay " + " ".join(map(str, run["sched"])), d))
             else:
                 ck.traces_validated += 1
+                nlin += 1
+                if lw:
+                    bad_lin.append((init, ths, "replay " + " ".join(map(str, run["sched"])), lw))
         nb = sum(1 for e in run["log"] if e[0] == "ev" and e[1][1] == "xchg")
         ck.count(1, (len(ths), sum(map(len, ths)), nb))
         dist[(len(ths), "batches=%d" % nb)] += 1
@@ -856,7 +1263,11 @@ def run_shim(ck):
         if rc not in (0, 3):
             bad_mon.append((init, ths, "dfs 2 %d" % (len(runs) + 1), "harness crashed (memory error) rc=%d %s" % (rc, err.strip()[-200:])))
     ck.extra["shim_runs"] = nruns
+    ck.extra["shim_histories_checked_by_model_linearization"] = nlin
     ck.extra["shim_distribution"] = {"%d threads %s" % k: v for k, v in sorted(dist.items())}
+    ck.oblige("corr:the REAL history (exact stamps) is explained by the model-produced linearization of the replayed run "
+              "(batch order, batchLin inside a batch): same results, real-time order respected, legal for the sequential spec",
+              "correspondence", not bad_lin, [(scen_text(i, t, sc), d) for i, t, sc, d in bad_lin[:1]])
     ck.oblige("corr:aggregator+handler trace replays against the Lean `Agg` model (every atomic access, value, result, final contents)",
               "correspondence", not bad_corr, [(scen_text(i, t, s), d) for i, t, s, d in bad_corr[:1]])
     ck.oblige("monitor:handlers mutually exclusive, each op in exactly one batch with one status, linearizable history, no lost element, exceptions only to their caller (E-SHIM)",
@@ -872,7 +1283,7 @@ def run_shim(ck):
 
     # --- failing-input search ---------------------------------------------------------------
     found = bad_mon[:]
-    if (bad_corr or found) and not any(severity(f[3]) == 2 for f in found):
+    if (bad_corr or bad_lin or found) and not any(severity(f[3]) == 2 for f in found):
         log("aggregator correspondence/batch discipline broken; searching schedules for a run on which the property itself fails")
         for k in range(300 if quick else 3000):
             init, ths = random_scenario(rng, small=(k % 3 == 0))
@@ -980,26 +1391,40 @@ def run_assign_throw_probe(ck):
 
 # ---------------------------------------------------------------------------------------------
 def run(ck):
-    ck.rule = ("E-PURE: every valid heap over {0,1,2} of size<=3 x every batch of <=4 ops (thorough adds values {0..3}, heaps<=4, <=3 ops) "
-               "incl. a throwing push, each followed by a drain batch; random heaps (sizes 0..31, duplicates, all-equal, strictly monotone) x 1-3 random "
+    ck.rule = ("Elements are <key>:<id>; the comparator sees the key only. Every case is generated over ids and run under one of the comparators "
+               "id / v//2 / v//3 / v%2 / v%3 / all-equal / reversed (concurrent_priority_queue<Elem, KeyGreater>) / reversed v//2; the heap array contents are compared BY ID "
+               "(so the exact tie behaviour is compared) together with mark, after every batch. "
+               "E-PURE: every valid heap over {0,1,2} of size<=3 x every batch of <=4 ops incl. a throwing push under `id`, <=3 ops under v//2 (ids 0,1 tie), all-equal, reversed "
+               "(thorough adds ids {0..3}, heaps<=4), each followed by a drain batch; random heaps (sizes 0..31, duplicates, all-equal, strictly monotone) x 1-3 random "
                "batches (mixed/pop-heavy/push-heavy/increasing/decreasing runs, const&/rvalue/throwing pushes) + drain; a throwing push inserted at "
                "every position of random batches; random batches with pops whose element assignment throws; heapify/reheap on random (mark, data). "
-               "E-SHIM: 2-4 threads x 1-3 calls (const&/rvalue/throwing push, try_pop) on 0-4 initial elements under random schedules (two preemption densities) and "
-               "bounded-preemption (2) DFS on 2-thread scenarios; every run is checked by the monitors, the atomic-level trace is replayed against the Lean Agg model. distinct = (empty heap?, set of (status, op kind), final mark 0?)")
+               "E-SHIM: 2-4 threads x 1-3 calls (const&/rvalue/throwing push, try_pop) on 0-4 initial elements with keys id / v//2 / v%2 / all-equal under random schedules "
+               "(two preemption densities) and bounded-preemption (2) DFS on 2-thread scenarios; every run is checked by the monitors (incl. Wing-Gong), the atomic-level trace is "
+               "replayed against the Lean Agg model step by step, and the model-produced linearization of the replayed run (batch order) is validated against the REAL history "
+               "(results, real-time order from the exact stamps, legality) by an independent Python spec. "
+               "distinct = (empty heap?, set of (status, op kind), final mark 0?, comparator)")
     ck.assumptions += [
-        "CpqBatch models handle_operations/heapify/reheap on (data, mark) with Nat priorities and std::less; my_size is only checked to equal data.size() after each batch",
-        "a throwing element copy is modelled for push(const T&) (the only place where handle_operations catches); vector growth moves elements (noexcept move)",
+        "CpqBatch models handle_operations/heapify/reheap on (data, mark) over elements (key, id) with my_compare(a,b) = a.key < b.key: an arbitrary strict weak order with "
+        "arbitrary ties (swo_has_rank: every strict weak order on finitely many elements is of this form); my_size is only checked to equal data.size() after each batch",
+        "the four guards of handle_operations (pop shortcut of both passes, data.empty(), final mark < size) and its statement skeleton are re-translated from the source on every run; "
+        "heapify/reheap loop guards are hand-written in the model and tied by the white-box differential only",
+        "a throwing element copy / allocation is modelled for push (the only place where handle_operations catches: status FAILED, rethrown by push in its own caller); the harness "
+        "throws from the copy constructor of push(const T&); vector growth moves elements (noexcept move); allocator failure takes the same catch(...) path and is not injected",
         "a pop whose element ASSIGNMENT throws (`x`, Op.pop true) is modelled AS CODED: Generated/C13.lean:popAssignGuarded is regenerated from the source "
         "(false in the pinned tree: the assignment is outside any try block, the exception leaves handle_operations in the handler thread, handler_busy stays set, "
         "the rest of the batch gets no status); all theorems about results assume no such pop (NoThrowingPop / popThrows = false); "
         "cpq_pop_throw_not_isolated and aggregator_pop_throw_witness are the closed negation witnesses; known finding `pop-assignment-throw-locks-queue`",
-        "NOT modelled: exceptions from element moves inside heapify/reheap (types whose move constructor/assignment can throw), allocator failure",
-        "not proved in Lean (checked by the E-SHIM trace replay only): the handler steps of Agg compute handleIdx of the grabbed batch; the next fields agree with the lists plist/rem/dfr",
-        "the linearization of a whole concurrent history is the concatenation of per-batch orders (cpq_batch_linearizable) in batch order, justified by "
-        "aggregator_serial_exactly_once; that composition step is stated in prose (Props/C13.lean header), not as a Lean theorem over histories",
+        "NOT modelled: exceptions from element moves inside heapify/reheap (types whose move constructor/assignment can throw)",
+        "cpq_history_linearizable is a theorem about the access-level model Agg (one step per atomic access, any number of threads, any schedule, SC interleaving); its tie to the code is the "
+        "E-SHIM step-by-step replay (every access, value, memory order as logged) plus the validation of the REAL history by the model-produced linearization; "
+        "memory-order sufficiency (release status store / acquire spin) is not a theorem here: a weakened order shows up as a trace mismatch",
+        "not proved in Lean (checked by the E-SHIM trace replay only): the next fields agree with the lists plist/rem/dfr",
+        "the linearization order is batch order and, inside a batch, batchLin (NOT the serve order, which is not a legal sequential order in general: heap [3], batch push 10, push 5, try_pop "
+        "returns 5); all operations of a batch are pairwise concurrent, which the well-formedness clause of cpq_history_linearizable proves (all linearization points of a batch sit at the exchange)",
     ]
     ck.trusted += ["harness/c13/pure.cpp (hand-built operation lists, private members via -fno-access-control)",
-                   "checks/c13.py monitors (brute-force batch linearizability, conservation)",
+                   "checks/c13gen.py (statement parser + guard translator for handle_operations)",
+                   "checks/c13.py monitors (brute-force batch linearizability, conservation, Wing-Gong, check_linearization)",
                    "correspondence is sampled/exhaustive-small (differential), not proved"]
     import time
     stage = {}
@@ -1024,9 +1449,10 @@ def replay(ck, obj):
     if r.get("engine") == "E-PURE":
         exe = pure_exe()
         line = r["stdin"]
+        mline = r.get("model_stdin", line)
         out = run_impl(exe, [line])[0].rstrip()
-        why = ("crashed: " + out) if out.startswith("CRASH") else (monitor_sift(line, out) if r.get("sift") else monitor_case(line, out))
-        print("replay of %s\n  input : %s\n  output: %s\n  model : %s" % (obj.get("key"), line, out, drv("c13", line + "\n")[0]))
+        why = ("crashed: " + out) if out.startswith("CRASH") else (monitor_sift(mline, out) if r.get("sift") else monitor_case(mline, out))
+        print("replay of %s\n  input : %s\n  output: %s\n  model : %s" % (obj.get("key"), line, out, drv("c13", mline + "\n")[0]))
         print("  -> %s" % ("STILL FAILS: " + why if why else "property holds now"))
         return 1 if why else 0
     if r.get("engine") == "E-SHIM":
